@@ -22,7 +22,7 @@ RULE = ('Seeded scenarios: a real fit file of 1..10 sources (>= 1 fitted point a
         '(criterion, naming, channel, #good, #bad)).')
 ASSUMPTIONS = ['input records come from a real fit() run (their correctness is C10\'s subject)', 'a zero-byte output file is an empty list of records',
                'thresholds are > 0 and never equal to an attained value']
-PROBES = ['good_empty', 'bad_empty', 'both_nonempty', 'auto_names', 'channel_list', 'second_split', 'best_chi2_ge_1e30', 'output_names_reused', 'synthetic_threshold_adjacent', 'explicit_names_auto_in_name', 'explicit_names_auto_dir', 'explicit_names_swapped_words', 'explicit_names_next_to_input']
+PROBES = ['good_empty', 'bad_empty', 'both_nonempty', 'auto_names', 'channel_list', 'second_split', 'best_chi2_ge_1e30', 'output_names_reused', 'synthetic_threshold_adjacent', 'explicit_names_auto_in_name', 'explicit_names_auto_dir', 'explicit_names_swapped_words', 'explicit_names_next_to_input', 'threshold_not_a_python_float']
 
 
 def budgets(tier):
@@ -76,6 +76,7 @@ def generate(rng, tier, idx):
         steps.append({'criterion': rng.choice(['chi', 'cpd']), 'threshold': float('%.4g' % (10 ** rng.uniform(-2, 6))) if rng.random() < 0.8 else rng.choice([1e29, 1e31, 1e-9]),
                       'naming': rng.choice(['explicit', 'auto']), 'channel': rng.choice(['path', 'list']), 'auto_as': rng.choice(['default', 'runtime']),
                       'name_style': rng.choice(['plain', 'plain', 'auto_in_name', 'auto_dir', 'swapped_words', 'next_to_input']),
+                      'thr_type': rng.choice(['float', 'float', 'int', 'i64', 'f32', 'f64']),
                       # later steps either split an output of the previous step, or re-filter the SAME input again (tuning the
                       # threshold), in which case the outputs of the earlier run are still lying around under the same names
                       'input': 'fit' if k == 0 else rng.choice(['good', 'bad', 'fit', 'fit']),
@@ -181,6 +182,19 @@ def _execute(sc, sim, out):
         nds = [n_data_of(x.source.valid) for x in inrecs]
         q = [b if st['criterion'] == 'chi' else b / n for b, n in zip(best, nds)]
         th = st['threshold']
+        th_obj = th
+        # the threshold may be handed over as any real number type (same value): python int, numpy integer, float32
+        tt = st.get('thr_type', 'float')
+        if tt in ('int', 'i64') and 1 <= th < 9e18:
+            th = float(int(th))
+            th_obj = int(th) if tt == 'int' else np.int64(int(th))
+            out.probe('threshold_not_a_python_float')
+        elif tt == 'f32' and 1e-30 < abs(th) < 1e38:
+            th_obj = np.float32(th)
+            th = float(th_obj)
+            out.probe('threshold_not_a_python_float')
+        elif tt == 'f64':
+            th_obj = np.float64(th)
         if sc.get('family') == 'synthetic':
             # values one ulp from the boundary ARE judged, but only where exact rational arithmetic and the plain float
             # quotient agree on which side of the threshold the quantity lies (and it is not equal to it)
@@ -206,7 +220,7 @@ def _execute(sc, sim, out):
         here = os.path.dirname(inp)            # automatic names are made next to the input
         before = set(os.listdir(here))
         before_bytes = env.real_open(inp, 'rb').read()
-        kw = {st['criterion']: th}
+        kw = {st['criterion']: th_obj}
         if naming == 'explicit':
             style = st.get('name_style', 'plain')
             if style == 'auto_in_name':
